@@ -281,28 +281,24 @@ func stratifiedCorpus(stmts []corpusStmt, per, maxLen int) []string {
 		if !s.Enabled || len(s.Text) > maxLen {
 			continue
 		}
-		f := strings.Fields(strings.ToUpper(s.Text))
-		if len(f) == 0 {
+		sp, ok := tokenSpans(s.Text)
+		for ok && len(sp) > 0 && sp[len(sp)-1].Tok == token.SEMICOLON {
+			sp = sp[:len(sp)-1]
+		}
+		if !ok || len(sp) == 0 {
 			continue
 		}
-		if len(f) > 3 {
-			f = f[:3]
-		}
-		// identifiers in 2nd/3rd position would make every statement its own kind: keep only keyword-like words there
-		k := f[0]
-		for _, w := range f[1:] {
-			if token.Lookup(strings.Trim(w, "();,")) != token.IDENT {
-				k += " " + w
+		word := func(t span) string { return strings.ToUpper(s.Text[t.Start:t.End]) }
+		k := word(sp[0])
+		for _, t := range sp[1:min(3, len(sp))] {
+			// identifiers in 2nd/3rd position would make every statement its own kind: keep only keyword-like words there
+			if t.Tok != token.IDENT && t.Tok != token.NUMBER && t.Tok != token.STRING || softKeywords()[word(t)] {
+				k += " " + word(t)
 			}
 		}
-		// … and the statement's last word when it is keyword-like (SYSTEM SYNC REPLICA t PULL vs … LIGHTWEIGHT; … FINAL; … SYNC)
-		all := strings.Fields(strings.ToUpper(s.Text))
-		if lw := strings.Trim(all[len(all)-1], "();,"); len(all) > 3 && lw != "" && token.Lookup(lw) != token.IDENT {
-			k += " … " + lw
-		} else if len(all) > 3 {
-			if lw2 := strings.Trim(all[len(all)-1], "();,"); len(lw2) >= 3 && len(lw2) <= 12 && strings.ToUpper(lw2) == strings.ToLower(lw2) == false && softKeywords()[lw2] {
-				k += " … " + lw2
-			}
+		// … and the statement's last token when it is keyword-like (SYSTEM SYNC REPLICA t PULL vs … LIGHTWEIGHT; … FINAL; … SYNC)
+		if last := sp[len(sp)-1]; len(sp) > 3 && (last.Tok.IsKeyword() || (last.Tok == token.IDENT && !last.Quoted && softKeywords()[word(last)])) {
+			k += " … " + word(last)
 		}
 		if seen[k] < per {
 			seen[k]++
